@@ -177,3 +177,21 @@ def install(reg, src):
                     sp.den(e) == DENV(lv, sk_, sp.E, sp.PV) - relem(sk_),
                     snt == c.ip.models.name_term(sense)]
         c.ensures("one constraint per element", post)
+    install_post_init(reg, src)
+
+
+def install_post_init(reg, src):
+    @reg.contract(f"{M}:Constraint.__post_init__", props=["C10"], cases={"sense": ["<=", ">=", "==", "<", "other"]})
+    def _(c):
+        from pyvc.values import Obj as _Obj, SName
+        sk = c.choose("sense", [])
+        o = _Obj("Constraint")
+        o.fields["expr"] = T.expr().fresh(c.ip, "expr")
+        o.fields["sense"] = sk if sk != "other" else SName(sym.fresh("sense", sym.Name))
+        o.fields["name"] = None
+        if sk == "other":
+            c.assume(z3.And(*[o.fields["sense"].t != sym.lit(x) for x in SENSES]))
+        c.argorder.append("self")
+        c.argvals["self"] = o
+        c.returns(T.none())
+        c.raises("ConstraintError", when=z3.BoolVal(sk not in SENSES), name="raises ConstraintError iff the sense is not one of <=, >=, ==")
